@@ -50,6 +50,14 @@ def gen_cases(tier, seed):
             for oo in (OPTS[0], OPTS[2], OPTS[3]):
                 base = {"nodes": nodes, "edges": edges, "flow": {e: (float(f) if wt == "float" else f) for e, f in fl.items()}, "planted": [], "wt": wt, "mode": "edge"}
                 cases.append({"spec": I.spec_of(base), "mode": "edge", "wt": wt, "cons": [], "cov": 1.0, "ignore": [], "oo": oo, "tag": f"corpus{i}"})
+    # scanning windows (small window) in which every edge is ignored: node-weighted double diamond with two ignored branch nodes
+    dn = ["a", "b", "c", "d", "e", "f", "g"]; de = [("a", "b"), ("a", "c"), ("b", "d"), ("c", "d"), ("d", "e"), ("d", "f"), ("e", "g"), ("f", "g")]
+    for wt in ("int", "float"):
+        for ign, fl in ((["b", "c"], {"a": 8, "c": 77, "d": 8, "e": 6, "f": 2, "g": 8}), (["b", "c"], {"a": 8, "d": 8, "e": 6, "f": 2, "g": 8}),
+                        (["e", "f"], {"a": 8, "b": 3, "c": 5, "d": 8, "g": 8})):
+            base = {"nodes": dn, "edges": de, "flow": {v: (float(fl.get(v, 0)) if wt == "float" else fl.get(v, 0)) for v in dn}, "planted": [], "wt": wt, "mode": "node"}
+            cases.append({"spec": I.spec_of(base, drop_attr=[v for v in dn if v not in fl]), "mode": "node", "wt": wt, "cons": [], "cov": 1.0, "ignore": ign,
+                          "oo": {"use_subgraph_scanning_lowerbound": True, "_small_window": True}, "tag": "corpus-window"})
     n = 500 if tier == "quick" else 5000
     for i in range(n):
         rng = gen.rng_for("C03", seed, i)
